@@ -176,123 +176,140 @@ func c18(r *report.Run) {
 	}
 	_ = nInt
 	total := len(pairs)
-	par.ForW(total, func(w, k int) {
-		xe, pe := pairs[k].x, pairs[k].p
-		isFloat := pairs[k].float
-		xs, p := xe.String(), pe.String()
-		fe := fs[k%len(fs)]
-		f := fe.String()
-		nested := xe.R.Op == "nested-hash"
-		guard.Enter(w, "xs="+xs+" p="+p)
-		defer guard.Leave(w)
-		varSet := map[string]bool{}
-		var vars []string
-		for _, e := range []*gen.Expr{xe, pe, fe} {
-			for _, v := range gen.Vars(e) {
-				if !varSet[v] {
-					varSet[v] = true
-					vars = append(vars, v)
+	// blocks, so that the wall-clock budget can stop the run BETWEEN blocks (a block that started is finished)
+	const block = 4000
+	pairsDone := 0
+	for lo := 0; lo < total; lo += block {
+		if r.OutOfTime() {
+			exhaustive = false
+			break
+		}
+		hi := lo + block
+		if hi > total {
+			hi = total
+		}
+		par.ForW(hi-lo, func(w, kk int) {
+			k := lo + kk
+			xe, pe := pairs[k].x, pairs[k].p
+			isFloat := pairs[k].float
+			xs, p := xe.String(), pe.String()
+			fe := fs[k%len(fs)]
+			f := fe.String()
+			nested := xe.R.Op == "nested-hash"
+			guard.Enter(w, "xs="+xs+" p="+p)
+			defer guard.Leave(w)
+			varSet := map[string]bool{}
+			var vars []string
+			for _, e := range []*gen.Expr{xe, pe, fe} {
+				for _, v := range gen.Vars(e) {
+					if !varSet[v] {
+						varSet[v] = true
+						vars = append(vars, v)
+					}
 				}
 			}
-		}
-		if nested {
-			vars = append(vars, "NN")
-		}
-		names := append([]string{}, vars...)
-		names = append(names, "A2")
-		vals := henv.Valuations(vars)
-		atomic.AddInt64(&cases, 1)
-		order := int64(k)
-		cache := c18Cache{}
-		c18Run := func(src string, m lib.Mode, env *henv.Env, names []string, runs *int64) c18Res {
-			return c18RunC(cache, src, m, env, names, runs)
-		}
-		for _, m := range modes {
-			for _, v := range vals {
-				for _, id := range c18Identities {
-					lhs, rhs := subst(id.lhs, xs, p, f), subst(id.rhs, xs, p, f)
-					if nested {
-						lhs, rhs = "map(NN, {"+lhs+"})", "map(NN, {"+rhs+"})"
-					}
-					a := c18Run(lhs, m, henv.Make(v), names, &runs)
-					b := c18Run(rhs, m, henv.Make(v), names, &runs)
-					if strings.HasPrefix(a.norm, "compile:") || strings.HasPrefix(b.norm, "compile:") {
-						if strings.HasPrefix(a.norm, "compile:") != strings.HasPrefix(b.norm, "compile:") && !(id.lhsMayFailAlone && strings.HasPrefix(a.norm, "compile:")) {
-							report1(order, id.name, m.String(), "one-side-rejected", lhs, rhs, v, a.norm+" / "+b.norm, xs, p)
+			if nested {
+				vars = append(vars, "NN")
+			}
+			names := append([]string{}, vars...)
+			names = append(names, "A2")
+			vals := henv.Valuations(vars)
+			atomic.AddInt64(&cases, 1)
+			order := int64(k)
+			cache := c18Cache{}
+			c18Run := func(src string, m lib.Mode, env *henv.Env, names []string, runs *int64) c18Res {
+				return c18RunC(cache, src, m, env, names, runs)
+			}
+			for _, m := range modes {
+				for _, v := range vals {
+					for _, id := range c18Identities {
+						lhs, rhs := subst(id.lhs, xs, p, f), subst(id.rhs, xs, p, f)
+						if nested {
+							lhs, rhs = "map(NN, {"+lhs+"})", "map(NN, {"+rhs+"})"
 						}
+						a := c18Run(lhs, m, henv.Make(v), names, &runs)
+						b := c18Run(rhs, m, henv.Make(v), names, &runs)
+						if strings.HasPrefix(a.norm, "compile:") || strings.HasPrefix(b.norm, "compile:") {
+							if strings.HasPrefix(a.norm, "compile:") != strings.HasPrefix(b.norm, "compile:") && !(id.lhsMayFailAlone && strings.HasPrefix(a.norm, "compile:")) {
+								report1(order, id.name, m.String(), "one-side-rejected", lhs, rhs, v, a.norm+" / "+b.norm, xs, p)
+							}
+							continue
+						}
+						switch {
+						case a.fail != b.fail && !(id.lhsMayFailAlone && a.fail):
+							report1(order, id.name, m.String(), "failure-differs", lhs, rhs, v, fmt.Sprintf("lhs failed=%v rhs failed=%v", a.fail, b.fail), xs, p)
+						case !a.fail && !b.fail && a.norm != b.norm:
+							report1(order, id.name, m.String(), "value", lhs, rhs, v, a.norm+" != "+b.norm, xs, p)
+						}
+						// the identity as ONE expression must evaluate to true
+						if !id.lhsMayFailAlone && !isFloat { // NaN is not equal to itself: the '==' form is meaningless for float arrays
+							one := c18Run("("+lhs+") == ("+rhs+")", m, henv.Make(v), names, &runs)
+							if !one.fail && one.norm != "true" && !a.fail {
+								report1(order, id.name, m.String(), "single-expression-false", lhs, rhs, v, one.norm, xs, p)
+							}
+						}
+						if !a.fail {
+							mu.Lock()
+							if len(outcomes) < 100000 {
+								outcomes[id.name+a.norm] = true
+							}
+							mu.Unlock()
+						}
+					}
+					if nested || isFloat {
 						continue
 					}
-					switch {
-					case a.fail != b.fail && !(id.lhsMayFailAlone && a.fail):
-						report1(order, id.name, m.String(), "failure-differs", lhs, rhs, v, fmt.Sprintf("lhs failed=%v rhs failed=%v", a.fail, b.fail), xs, p)
-					case !a.fail && !b.fail && a.norm != b.norm:
-						report1(order, id.name, m.String(), "value", lhs, rhs, v, a.norm+" != "+b.norm, xs, p)
-					}
-					// the identity as ONE expression must evaluate to true
-					if !id.lhsMayFailAlone && !isFloat { // NaN is not equal to itself: the '==' form is meaningless for float arrays
-						one := c18Run("("+lhs+") == ("+rhs+")", m, henv.Make(v), names, &runs)
-						if !one.fail && one.norm != "true" && !a.fail {
-							report1(order, id.name, m.String(), "single-expression-false", lhs, rhs, v, one.norm, xs, p)
+					// filter keeps exactly the satisfying elements, in order (per-element runs of the predicate)
+					xv := c18Run(xs, m, henv.Make(v), names, &runs)
+					fv := c18Run("filter("+xs+", {"+p+"})", m, henv.Make(v), names, &runs)
+					if !xv.fail && !strings.HasPrefix(xv.norm, "compile:") && !strings.HasPrefix(fv.norm, "compile:") {
+						rv := reflect.ValueOf(xv.val)
+						var keep []interface{}
+						anyFail := false
+						for i := 0; i < rv.Len(); i++ {
+							el := rv.Index(i).Interface()
+							n, ok := el.(int)
+							if !ok {
+								anyFail = true
+								break
+							}
+							env := henv.Make(v)
+							env.A2 = []int{n}
+							pr := c18Run("all(A2, {"+p+"})", m, env, names, &runs)
+							if pr.fail {
+								anyFail = true
+								break
+							}
+							if pr.norm == "true" {
+								keep = append(keep, n)
+							}
+						}
+						if anyFail != fv.fail {
+							report1(order, "filter-elementwise", m.String(), "failure-differs", "filter("+xs+", {"+p+"})", "per-element", v, fmt.Sprintf("filter failed=%v, some per-element predicate failed=%v", fv.fail, anyFail), xs, p)
+						} else if !fv.fail && henv.Norm(keep) != fv.norm && !(len(keep) == 0 && fv.norm == "[]") {
+							report1(order, "filter-elementwise", m.String(), "value", "filter("+xs+", {"+p+"})", "per-element", v, fv.norm+" != "+henv.Norm(keep), xs, p)
 						}
 					}
-					if !a.fail {
-						mu.Lock()
-						if len(outcomes) < 100000 {
-							outcomes[id.name+a.norm] = true
-						}
-						mu.Unlock()
+					// innermost-# law: an inner builtin whose predicate does not mention the outer element
+					if xv.fail {
+						continue
 					}
-				}
-				if nested || isFloat {
-					continue
-				}
-				// filter keeps exactly the satisfying elements, in order (per-element runs of the predicate)
-				xv := c18Run(xs, m, henv.Make(v), names, &runs)
-				fv := c18Run("filter("+xs+", {"+p+"})", m, henv.Make(v), names, &runs)
-				if !xv.fail && !strings.HasPrefix(xv.norm, "compile:") && !strings.HasPrefix(fv.norm, "compile:") {
-					rv := reflect.ValueOf(xv.val)
-					var keep []interface{}
-					anyFail := false
-					for i := 0; i < rv.Len(); i++ {
-						el := rv.Index(i).Interface()
-						n, ok := el.(int)
-						if !ok {
-							anyFail = true
-							break
-						}
-						env := henv.Make(v)
-						env.A2 = []int{n}
-						pr := c18Run("all(A2, {"+p+"})", m, env, names, &runs)
-						if pr.fail {
-							anyFail = true
-							break
-						}
-						if pr.norm == "true" {
-							keep = append(keep, n)
-						}
+					inner := "any(A, {" + p + "})"
+					l := c18Run("count("+xs+", {"+inner+"})", m, henv.Make(v), append(names, "A"), &runs)
+					rr := c18Run("("+inner+") ? len("+xs+") : 0", m, henv.Make(v), append(names, "A"), &runs)
+					if l.fail && !rr.fail && !strings.HasPrefix(l.norm, "compile:") {
+						report1(order, "innermost-hash", m.String(), "failure-differs", "count("+xs+", {"+inner+"})", "("+inner+") ? len("+xs+") : 0", v, "left side fails, right side gives "+rr.norm, xs, p)
 					}
-					if anyFail != fv.fail {
-						report1(order, "filter-elementwise", m.String(), "failure-differs", "filter("+xs+", {"+p+"})", "per-element", v, fmt.Sprintf("filter failed=%v, some per-element predicate failed=%v", fv.fail, anyFail), xs, p)
-					} else if !fv.fail && henv.Norm(keep) != fv.norm && !(len(keep) == 0 && fv.norm == "[]") {
-						report1(order, "filter-elementwise", m.String(), "value", "filter("+xs+", {"+p+"})", "per-element", v, fv.norm+" != "+henv.Norm(keep), xs, p)
+					if !l.fail && !rr.fail && l.norm != rr.norm && !strings.HasPrefix(l.norm, "compile:") && !strings.HasPrefix(rr.norm, "compile:") {
+						report1(order, "innermost-hash", m.String(), "value", "count("+xs+", {"+inner+"})", "("+inner+") ? len("+xs+") : 0", v, l.norm+" != "+rr.norm, xs, p)
 					}
-				}
-				// innermost-# law: an inner builtin whose predicate does not mention the outer element
-				if xv.fail {
-					continue
-				}
-				inner := "any(A, {" + p + "})"
-				l := c18Run("count("+xs+", {"+inner+"})", m, henv.Make(v), append(names, "A"), &runs)
-				rr := c18Run("("+inner+") ? len("+xs+") : 0", m, henv.Make(v), append(names, "A"), &runs)
-				if l.fail && !rr.fail && !strings.HasPrefix(l.norm, "compile:") {
-					report1(order, "innermost-hash", m.String(), "failure-differs", "count("+xs+", {"+inner+"})", "("+inner+") ? len("+xs+") : 0", v, "left side fails, right side gives "+rr.norm, xs, p)
-				}
-				if !l.fail && !rr.fail && l.norm != rr.norm && !strings.HasPrefix(l.norm, "compile:") && !strings.HasPrefix(rr.norm, "compile:") {
-					report1(order, "innermost-hash", m.String(), "value", "count("+xs+", {"+inner+"})", "("+inner+") ? len("+xs+") : 0", v, l.norm+" != "+rr.norm, xs, p)
 				}
 			}
-		}
-	})
+		})
+		pairsDone = hi
+	}
+	r.Set("array_predicate_pairs_completed", pairsDone)
+	r.Set("array_predicate_pairs_total", total)
 	// membership in an integer range == two-sided comparison; slicing partitions a sequence
 	var extra int64
 	ints := []string{"I", "J", "0", "1", "3", "-1", "2"}
